@@ -71,6 +71,32 @@ class Rig:
         self._clients[key] = c
         return c
 
+    def second_server(self):
+        """a second loopback gRPC server (for clients that must not share state with the first ones)"""
+        if getattr(self, "_grpc_b", None) is None:
+            self._grpc_b = servers.GrpcLoop(self.grpc.arities)
+            self.ctx.on_close(self._grpc_b.stop)
+            self._sync_channel_b = grpc.insecure_channel(self._grpc_b.addr)
+            self.ctx.on_close(self._sync_channel_b.close)
+            self._aio_channel_b = None
+        return self._grpc_b
+
+    def fresh_client_b(self, file, svc, kind):
+        """a NEW client instance of `kind` (sync | async) whose channel goes to the second server"""
+        self.second_server()
+        pkg = self.package_for(file)
+        if kind == "sync":
+            cls = getattr(pkg, svc["name"] + "Client")
+            return cls(transport=cls.get_transport_class("grpc")(channel=self._sync_channel_b))
+        cls = getattr(pkg, svc["name"] + "AsyncClient")
+        sync_cls = getattr(pkg, svc["name"] + "Client")
+
+        async def mk():
+            if self._aio_channel_b is None:
+                self._aio_channel_b = grpc.aio.insecure_channel(self._grpc_b.addr)
+            return cls(transport=sync_cls.get_transport_class("grpc_asyncio")(channel=self._aio_channel_b))
+        return self.run(mk())
+
     def method(self, client, rpc_name):
         return getattr(client, client_method_name(rpc_name))
 
